@@ -30,6 +30,31 @@ CHECKS = {
         "Trusted: TLC, the hooks (add-only), harness/c17_threads.cpp",
    technique="TLA+ protocol model checked by TLC + trace validation of recorded thread executions against the spec",
    engine="threads"),
+ "C09": dict(
+   category="model_checking", design_ref="DESIGN.md 6/C09",
+   text="spec/MGCycle.tla holds the documented V/F/W cycles declaratively (W in ruler order) plus the textbook recursion; spec/MGCycleOp.tla, a "
+        "statement-level transcription of _apply_cycle_v/_f/_w with the _counters array, is model checked by TLC for equivalence with the "
+        "declarative cycles for every (top,coarse) sub-range of up to 7 (thorough 9) levels and all left-over counter contents. TLC-generated "
+        "histories (cycle x smoother presence x coarse solver x sub-range x adaptive mode x repeated applications / set_cycle / set_levels) "
+        "with the call log and the Z_32003 correction predicted by the spec are replayed exactly into the unmodified Solver::MultiGrid through "
+        "duck-typed mock level types. Recorded runs of a real LAFEM Q1 Poisson hierarchy (levels 2..6/7) are validated by TLC: event grammar "
+        "of the Statistics expression log and the level-independent rate bound.",
+   note="cycle structure, linear map and adaptive step lengths exact and exhaustive within the bounds; convergence rate is a numeric projection "
+        "(max per-cycle residual ratio) judged by the spec (rate < 1/2 and <= rate(level 2)+0.15); serial hierarchies, Jacobi smoothing, 2D only",
+   technique="TLA+ spec model checked (transcription == declarative cycle) + TLC-generated behaviours replayed into the real MultiGrid over a finite field + trace validation of real runs",
+   engine="multigrid"),
+ "C20": dict(
+   category="model_checking", design_ref="DESIGN.md 6/C20",
+   text="spec/Lifetime.tla models a pool of container slots and the MemoryPool chunk table; every action is one public lifetime call written as "
+        "the MemoryPool calls it performs (ctor in every shape incl. size-0 arrays, clone in all 5 modes within/across data and index types, "
+        "convert, move, move-ctor, ranged slice, layout sharing, clear, destroy, overwrite). TLC checks RefCount, NoLeak, NoDangling, EmptyAtEnd "
+        "on all histories to depth 3 (thorough 4) over 3 slots and seeded random histories of depth 9-14, and every history is replayed on real "
+        "containers in the ASan/UBSan build: reference counters (hook H1), aliasing classes, allocation sizes, contents and live chunk count "
+        "are compared with the predicted world after every step, and the pool must be empty after destroying everything.",
+   note="heap safety inside an operation is observed by ASan/UBSan during replay, not proved; DenseVector and SparseMatrixCSR families stand for "
+        "all containers (they share Container's lifetime code); the owner-outlives-slice obligation is an enabling condition of the spec",
+   technique="TLA+ state machine of reference-counted arrays model checked by TLC + exhaustive/simulated histories replayed into the implementation under ASan",
+   engine="lifetime"),
 }
 
 ENGINES = [
@@ -38,6 +63,10 @@ ENGINES = [
  {"name": "threads", "path": "spec/ThreadAsm.tla spec/Trace_ThreadAsm.tla spec/WorkDist.tla spec/MC_ThreadAsm.tla spec/MC_WorkDist.tla "
                              "spec/ThreadCfg.tla harness/c17_threads.cpp lib/c17_mc.py checks/C17.py",
   "serves_properties": ["C17"], "kind_free_text": "TLA+ protocol model (TLC model checking) + trace validation of hook-recorded executions"},
+ {"name": "multigrid", "path": "spec/MGCycle.tla spec/MGCycleOp.tla spec/MGCycleGen.tla spec/MGCycleRate.tla harness/c09_mgmock.cpp harness/c09_mgreal.cpp checks/C09.py",
+  "serves_properties": ["C09"], "kind_free_text": "TLA+ cycle spec + TLC model checking + mock-algebra replay + trace validation"},
+ {"name": "lifetime", "path": "spec/Lifetime.tla harness/c20_lifetime.cpp checks/C20.py",
+  "serves_properties": ["C20"], "kind_free_text": "TLA+ reference-count state machine + ASan replay"},
 ]
 
 PENDING_REASON = "check not built yet (work in progress, see DESIGN.md section 11)"
